@@ -1427,8 +1427,8 @@ Proof.
   { revert s. induction a as [|o a IH]; intro s; cbn [app matches]; [eexists; reflexivity|].
     destruct (step dbg o s) as [[s1 e1]| |].
     - destruct (IH s1) as (x & ->). exists x. rewrite app_assoc. reflexivity.
-    - exists []. reflexivity.
-    - exists []. reflexivity. }
+    - exists []. rewrite !app_nil_r. reflexivity.
+    - exists []. rewrite !app_nil_r. reflexivity. }
   destruct H as (x & ->). rewrite app_length. lia.
 Qed.
 
@@ -1454,4 +1454,216 @@ Proof.
   { unfold match_of. cbn [m_body m_magic]. unfold passes_filters. rewrite Hs, Hm0, Hz. reflexivity. }
   rewrite !app_length. cbn [length app].
   destruct (step dbg _ A) as [[? ?]| |]; cbn [length app]; lia.
+Qed.
+
+(* ====================================================================================== *)
+(* the code before b2421d6                                                                 *)
+(* ====================================================================================== *)
+(* on_input as it was: retain(k >= last_recv_frame - 2 * max_prediction), and a packet whose base frame is
+   missing is dropped silently *)
+Definition epl_on_input_old (dbg : bool) (now : Z) (st : list status) (disc_req : bool) (start ack : Z)
+                            (bytes : list N) (s : ep) : res ep :=
+  if negb disc_req && negb (Z.of_nat (length st) =? u_num_players s) then Ok s
+  else if start <? 0 then Ok s
+  else
+    match eps_header st disc_req ack s with
+    | Ok s2 =>
+      let decode_frame := if last_recv_frame s2 =? NULL then NULL else start - 1 in
+      match alookup decode_frame (u_recv_inputs s2) with
+      | Some ref =>
+        let s3 := set_last_input_recv now s2 in
+        match Codec.decode dbg ref bytes with
+        | Ok inputs =>
+          match accept_inputs dbg start 0 inputs s3 with
+          | Ok (true, s4) =>
+            let s5 := send_input_ack now s4 in
+            let lrf := last_recv_frame s5 in
+            match ts_i32_arith dbg (2 * ts_wrap_i32 (u_max_prediction s5)) with
+            | Ok w =>
+              match ts_i32_arith dbg (lrf - w) with
+              | Ok lo => Ok (set_recv_inputs (aretain_ge lo (u_recv_inputs s5)) s5)
+              | Err => Err
+              | Panic => Panic
+              end
+            | Err => Err
+            | Panic => Panic
+            end
+          | Ok (false, s4) => Ok s4
+          | Err => Err
+          | Panic => Panic
+          end
+        | Err => Ok s3
+        | Panic => Panic
+        end
+      | None => Ok s2
+      end
+    | Err => Err
+    | Panic => Panic
+    end.
+
+(* handle_message with that on_input (only Input packets matter here) *)
+Definition epl_handle_message_old (dbg : bool) (now nonce : Z) (m : message) (s : ep) : res ep :=
+  match m_body m with
+  | Input st dr sf af bytes =>
+    if negb (passes_filters s m) then Ok s else epl_on_input_old dbg now st dr sf af bytes (eps_touch now s)
+  | _ => handle_message dbg now nonce m s
+  end.
+
+(* the two variants agree wherever the repair does not apply: the current on_input is the old one except for the
+   pruning threshold and the re-acknowledgement (definitional check on the model of the current code) *)
+Lemma epl_on_input_current : forall dbg now st dr start ack bytes s,
+  on_input dbg now st dr start ack bytes s =
+  if negb dr && negb (Z.of_nat (length st) =? u_num_players s) then Ok s
+  else if start <? 0 then Ok s
+  else match eps_header st dr ack s with Ok s2 => eps_body dbg now start bytes s2 | Err => Err | Panic => Panic end.
+Proof. exact eps_on_input_unfold. Qed.
+
+(* the history: window 0, S = (local player 0), R = (receives player 0); both Running after the handshake *)
+Definition epl_w_newR : ep := ep_new 0 7 [0] 2 1 0 2000 500 60 None.
+Definition epl_w_handshakeR : list op :=
+  [OSynchronize 0 100;
+   OMessage 0 101 (mkMsg 9 (SyncReply 100)); OMessage 0 102 (mkMsg 9 (SyncReply 101));
+   OMessage 0 103 (mkMsg 9 (SyncReply 102)); OMessage 0 104 (mkMsg 9 (SyncReply 103));
+   OMessage 0 105 (mkMsg 9 (SyncReply 104))].
+
+Definition epl_is_input_msg (m : message) : bool := match m_body m with Input _ _ _ _ _ => true | _ => false end.
+(* the Input packet S queued last *)
+Definition epl_newest_packet (s : ep) : option message :=
+  last (map Some (filter epl_is_input_msg (u_send_queue s))) None.
+
+(* (S: last_acked frame, |pending_output|, number of Input packets sent so far;
+    R: last_recv_frame, |recv_inputs|, |send_queue|) *)
+Definition epl_obs (S R : ep) : Z * nat * nat * Z * nat * nat :=
+  (fst (u_last_acked S), length (u_pending_output S), length (filter epl_is_input_msg (u_send_queue S)),
+   last_recv_frame R, length (u_recv_inputs R), length (u_send_queue R)).
+
+(* S sends frame 0; R handles it (its InputAck is lost); S sends frame 1; R handles that packet; S's retry timer
+   fires twice (polls at 300 and 600) and R handles each retransmission.  [h] is R's packet handler. *)
+Definition epl_wedge_history (h : Z -> message -> ep -> res ep) : res (list (Z * nat * nat * Z * nat * nat)) :=
+  res_bind (run true eps_w_new0 w_handshake) (fun x0 => let S0 := fst x0 in
+  res_bind (run true epl_w_newR epl_w_handshakeR) (fun y0 => let R0 := fst y0 in
+  res_bind (step true (OSendInput 10 [(0, (0, 5))] w_status) S0) (fun x1 => let S1 := fst x1 in
+  match epl_newest_packet S1 with None => Err | Some P0 =>
+  res_bind (h 11 P0 R0) (fun R1 =>
+  res_bind (step true (OSendInput 20 [(0, (1, 6))] w_status) S1) (fun x2 => let S2 := fst x2 in
+  match epl_newest_packet S2 with None => Err | Some P1 =>
+  res_bind (h 21 P1 R1) (fun R2 =>
+  res_bind (step true (OPoll 300 0 w_status) S2) (fun x3 => let S3 := fst x3 in
+  match epl_newest_packet S3 with None => Err | Some P2 =>
+  res_bind (h 301 P2 R2) (fun R3 =>
+  res_bind (step true (OPoll 600 0 w_status) S3) (fun x4 => let S4 := fst x4 in
+  match epl_newest_packet S4 with None => Err | Some P3 =>
+  res_bind (h 601 P3 R3) (fun R4 =>
+  Ok [epl_obs S0 R0; epl_obs S1 R1; epl_obs S2 R2; epl_obs S3 R3; epl_obs S4 R4])
+  end)) end)) end)) end))).
+
+(* before b2421d6: after the one lost InputAck, R (which pruned the blank entry -1 at window 0) ignores the packet
+   carrying frame 1 and both retransmissions: last_recv_frame stays 0, nothing is queued by R (column 6), S's
+   base stays NULL (column 1) with 2 inputs pending, although it retransmits (column 3: 2, 3, 4 packets) *)
+Lemma epl_lost_ack_wedges_refuted :
+  epl_wedge_history (fun now m R => epl_handle_message_old true now 0 m R) =
+  Ok [(-1, 0%nat, 0%nat, -1, 1%nat, 5%nat);
+      (-1, 1%nat, 1%nat, 0, 1%nat, 6%nat);
+      (-1, 2%nat, 2%nat, 0, 1%nat, 6%nat);
+      (-1, 2%nat, 3%nat, 0, 1%nat, 6%nat);
+      (-1, 2%nat, 4%nat, 0, 1%nat, 6%nat)].
+Proof. vm_compute. reflexivity. Qed.
+
+(* the current code on the same history: the blank entry survives the first packet (pruning threshold
+   min(0 - 0, 0 - 1) = -1), so the packet carrying frames 0 and 1 is decoded at once and every retransmission is
+   acknowledged again *)
+Lemma epl_lost_ack_repaired :
+  epl_wedge_history (fun now m R => handle_message true now 0 m R) =
+  Ok [(-1, 0%nat, 0%nat, -1, 1%nat, 5%nat);
+      (-1, 1%nat, 1%nat, 0, 2%nat, 6%nat);
+      (-1, 2%nat, 2%nat, 1, 3%nat, 7%nat);
+      (-1, 2%nat, 3%nat, 1, 3%nat, 8%nat);
+      (-1, 2%nat, 4%nat, 1, 3%nat, 9%nat)].
+Proof. vm_compute. reflexivity. Qed.
+
+(* ====================================================================================== *)
+(* non-vacuity: a concrete link in which the re-acknowledgement is what un-wedges R        *)
+(* ====================================================================================== *)
+(* window 0, first frame 2 (input delay 2).  S sends frame 2, R decodes it against the blank entry -1 and prunes
+   that entry (threshold min(2 - 0, 2 - 1) = 1); R's InputAck is lost; S sends frame 3: its packet still starts at
+   frame 2 and is encoded against the blank input, which R no longer keeps (and never keeps a frame 1) *)
+Definition epl_x_S0 : ep := match run true eps_w_new0 w_handshake with Ok (s, _) => s | _ => eps_w_new0 end.
+Definition epl_x_R0 : ep := match run true epl_w_newR epl_w_handshakeR with Ok (s, _) => s | _ => epl_w_newR end.
+Definition epl_x_step (o : op) (s : ep) : ep := match step true o s with Ok (s', _) => s' | _ => s end.
+Definition epl_x_S1 : ep := epl_x_step (OSendInput 10 [(0, (2, 5))] w_status) epl_x_S0.
+Definition epl_x_P0 : message := match epl_newest_packet epl_x_S1 with Some m => m | None => mkMsg 0 KeepAlive end.
+Definition epl_x_R1 : ep := epl_x_step (OMessage 11 0 epl_x_P0) epl_x_R0.
+Definition epl_x_S2 : ep := epl_x_step (OSendInput 20 [(0, (3, 6))] w_status) epl_x_S1.
+Definition epl_x_sent : list ibytes := [(2, [5;0;0;0]%N); (3, [6;0;0;0]%N)].
+
+Lemma epl_x_step1 : epl_step true 1 2 (epl_x_S0, epl_x_R0, []) (epl_x_S1, epl_x_R0, [(2, [5;0;0;0]%N)]).
+Proof.
+  apply (epl_step_send true 1 2 epl_x_S0 epl_x_R0 [] 10 [(0, (2, 5))] w_status epl_x_S1 [] [5;0;0;0]%N).
+  all: vm_compute; try reflexivity; try discriminate; try lia.
+Qed.
+Lemma epl_x_step2 : epl_step true 1 2 (epl_x_S1, epl_x_R0, [(2, [5;0;0;0]%N)]) (epl_x_S1, epl_x_R1, [(2, [5;0;0;0]%N)]).
+Proof.
+  apply (epl_step_deliver_sr true 1 2 epl_x_S1 epl_x_R0 _ 11 0 epl_x_P0 epl_x_R1 []).
+  - vm_compute. auto 10.
+  - vm_compute; reflexivity.
+Qed.
+Lemma epl_x_step3 : epl_step true 1 2 (epl_x_S1, epl_x_R1, [(2, [5;0;0;0]%N)]) (epl_x_S2, epl_x_R1, epl_x_sent).
+Proof.
+  apply (epl_step_send true 1 2 epl_x_S1 epl_x_R1 [(2, [5;0;0;0]%N)] 20 [(0, (3, 6))] w_status epl_x_S2 [] [6;0;0;0]%N).
+  all: vm_compute; try reflexivity; try discriminate; try lia.
+Qed.
+Lemma epl_x_init : epl_inv 1 2 epl_x_S0 epl_x_R0 [].
+Proof.
+  apply epl_inv_initial.
+  - lia.
+  - lia.
+  - lia.
+  - unfold TS_I32_MAX. lia.
+  - vm_compute. reflexivity.
+  - vm_compute. reflexivity.
+  - vm_compute. reflexivity.
+  - vm_compute. reflexivity.
+  - eapply (eps_inv_run true epl_w_handshakeR epl_w_newR); [apply eps_inv_new|vm_compute; reflexivity].
+  - vm_compute. split; discriminate.
+  - vm_compute. reflexivity.
+  - vm_compute. reflexivity.
+  - vm_compute. repeat constructor.
+  - vm_compute. repeat constructor.
+Qed.
+Lemma epl_x_inv : epl_inv 1 2 epl_x_S2 epl_x_R1 epl_x_sent.
+Proof.
+  apply (epl_inv_step true 1 2 epl_x_S1 epl_x_R1 [(2, [5;0;0;0]%N)] _ _ _); [|exact epl_x_step3].
+  apply (epl_inv_step true 1 2 epl_x_S1 epl_x_R0 [(2, [5;0;0;0]%N)] _ _ _); [|exact epl_x_step2].
+  apply (epl_inv_step true 1 2 epl_x_S0 epl_x_R0 [] _ _ _); [exact epl_x_init|exact epl_x_step1].
+Qed.
+
+Example epl_link_example :
+  epl_inv 1 2 epl_x_S2 epl_x_R1 epl_x_sent /\ epl_compat epl_x_S2 epl_x_R1 w_status /\
+  u_pending_output epl_x_S2 <> [] /\
+  last_recv_frame epl_x_R1 = 2 /\ alookup 1 (u_recv_inputs epl_x_R1) = None /\
+  alookup (-1) (u_recv_inputs epl_x_R1) = None /\ fst (u_last_acked epl_x_S2) = NULL /\
+  exists S' R', epl_exchange true 300 301 302 w_status epl_x_S2 epl_x_R1 = Ok (S', R') /\
+    last_recv_frame R' = 3 /\ fst (u_last_acked S') = 2.
+Proof.
+  split; [exact epl_x_inv|].
+  split. { unfold epl_compat. split; [right; vm_compute; reflexivity|]. split; [right; vm_compute; reflexivity|vm_compute; reflexivity]. }
+  split; [vm_compute; discriminate|].
+  split; [vm_compute; reflexivity|]. split; [vm_compute; reflexivity|]. split; [vm_compute; reflexivity|].
+  split; [vm_compute; reflexivity|].
+  eexists. eexists. split; [vm_compute; reflexivity|]. split; vm_compute; reflexivity.
+Qed.
+
+(* non-vacuity of (d): a freshly synchronizing endpoint (request 100 outstanding) and a peer that has not even
+   started its own handshake: five fault-free round trips *)
+Example epl_handshake_example :
+  exists A evs A' B', run true w_new [OSynchronize 0 100] = Ok (A, evs) /\
+    u_state A = PSynchronizing /\ u_remote_magic A = 0 /\ zmem 100 (u_sync_requests A) = true /\
+    u_sync_remaining A = 5 /\ epl_answers A epl_w_newR /\
+    epl_round_trips true 1 100 [101; 102; 103; 104; 105] A epl_w_newR = Ok (A', B') /\
+    u_state A' = PRunning /\ u_remote_magic A' = 7.
+Proof.
+  eexists. eexists. eexists. eexists. split; [vm_compute; reflexivity|].
+  repeat (split; [vm_compute; reflexivity|]).
+  split. { split; [vm_compute; discriminate|left; vm_compute; reflexivity]. }
+  split; [vm_compute; reflexivity|]. split; vm_compute; reflexivity.
 Qed.
